@@ -1219,14 +1219,12 @@ class PendingClassDef(_PendingCompoundStmt[ClassDef]):
         # and applied (bottom-up) after the class body has run
         class_decorators: list[expr] = []
         for dec_expr in self.node.decorator_list:
+            # (a plain name is evaluated now as well:
+            # the class body may rebind it)
             decorator = expr_transf(self.nsp, dec_expr)
-            if not isinstance(dec_expr, Name):
-                tmp_decorator_name = Name(id=ol_name(OL_ASSIGN_TMP))
-                return_list.append(
-                    NamedExpr(target=tmp_decorator_name, value=decorator)
-                )
-                decorator = tmp_decorator_name
-            class_decorators.append(decorator)
+            tmp_decorator_name = Name(id=ol_name(OL_ASSIGN_TMP))
+            return_list.append(NamedExpr(target=tmp_decorator_name, value=decorator))
+            class_decorators.append(tmp_decorator_name)
 
         class_bases = [expr_transf(self.nsp, _expr) for _expr in self.node.bases]
 
